@@ -549,7 +549,14 @@ def vCall (f a : Val) : Except PErr Val :=
     (`Generated.nameTree`; it answers every key of the shared table like the shared `canonName`,
     theorem `name_tree_matches_table`) -/
 def canonTree (cs : List Char) : String :=
-  (Generated.nameTree.find? (cs.map Char.toNat)).getD (String.ofList cs)
+  match Generated.nameTree.find? (cs.map Char.toNat) with
+  | some v => v
+  | none =>
+    -- `_rewritten_name_alternatives.get(name, name)`: the documented names containing `°`, under
+    -- the spelling the `°`→`deg` rewrite gives them (regenerated; empty on trees without the table)
+    match Generated.rewrittenNames.find? (fun p => p.1 == String.ofList cs) with
+    | some (_, c) => c
+    | none => String.ofList cs
 
 /-- NAME → value: `sqrt` and the four classes of `global_dict` stay Python names, everything
     else becomes `Symbol(inv_name_alternatives.get(name, name), positive=True)` -/
